@@ -71,8 +71,12 @@ Definition xpi : qci := qI XPI.
 Definition xFn (v : nat) (z : qci) : qci :=
   cidiv (ciadd z (qI (qc (Z.of_nat v + 2) 1))) (ciadd (cimul z z) (qI (qc (2 * Z.of_nat v + 5) 1))).
 Definition xIc (v m : nat) : qci := qI (qc (7 + 3 * Z.of_nat v + Z.of_nat m) 5).
+(* value v(x) of the named function at an instant x (v(0) is the same atom as the initial value) *)
+Definition xFv (v : nat) (z : qci) : qci :=
+  if qci_eqb z ci0 then xIc v 0
+  else cidiv (ciadd (cimul z z) (qI (qc (Z.of_nat v + 3) 1))) (ciadd z (qI (qc (Z.of_nat v + 5) 1))).
 
-Definition xenv (D : positive) : lenv QcIF := LEnv QcIF (xex D) (xsn D) (xcs D) xabs xpi is_real xneg xFn xIc.
+Definition xenv (D : positive) : lenv QcIF := LEnv QcIF (xex D) (xsn D) (xcs D) xabs xpi is_real xneg xFn xIc xFv.
 Definition xorc (D : positive) (N : nf QcIF) : option (qci -> qci) := Some (fun s => nf_val QcIF (xex D) s N).
 
 Definition ev_code (e : ev) : nat :=
@@ -92,12 +96,12 @@ Definition relax (strict : bool) (l : list nat) : list nat :=
   if strict then l else map (fun c => if Nat.eqb c 9 then 8%nat else c) l.
 Definition run_case (F : forms QcIF) (D : positive) (zic : bool) (e : tx QcIF) (s0 : qci)
                     (want : qci) (evs : list nat) (check_events strict : bool) : nat :=
-  let spec_bad := match doit QcIF (xex D) cii is_real xneg (xspec D) (xorc D) zic e with
+  let spec_bad := match doit QcIF (xex D) cii is_real xneg xFv (xspec D) (xorc D) zic e with
                   | (Some Y, _) => negb (qci_eqb (Y s0) want)
                   | (None, _) => false
                   end in
   if spec_bad then 5%nat else
-  match doit QcIF (xex D) cii is_real xneg F (xorc D) zic e with
+  match doit QcIF (xex D) cii is_real xneg xFv F (xorc D) zic e with
   | (Some X, mevs) =>
       if qci_eqb (X s0) want then
         (if check_events then (if nats_eqb (relax strict (map ev_code mevs)) (relax strict evs) then 0 else 2) else 0)%nat
@@ -105,6 +109,6 @@ Definition run_case (F : forms QcIF) (D : positive) (zic : bool) (e : tx QcIF) (
   | (None, _) => 3%nat
   end.
 Definition model_value (F : forms QcIF) (D : positive) (zic : bool) (e : tx QcIF) (s0 : qci) : option qci :=
-  match doit QcIF (xex D) cii is_real xneg F (xorc D) zic e with (Some X, _) => Some (X s0) | (None, _) => None end.
+  match doit QcIF (xex D) cii is_real xneg xFv F (xorc D) zic e with (Some X, _) => Some (X s0) | (None, _) => None end.
 Definition model_events (F : forms QcIF) (D : positive) (zic : bool) (e : tx QcIF) : list nat :=
-  map ev_code (snd (doit QcIF (xex D) cii is_real xneg F (xorc D) zic e)).
+  map ev_code (snd (doit QcIF (xex D) cii is_real xneg xFv F (xorc D) zic e)).
